@@ -173,7 +173,8 @@ SHAPES_Q = [(1,), (3,), (2, 2), ()]
 SHAPES_T = [(1,), (3,), (2, 2), (), (2, 3)]
 SHAPES_MAIN = [(1,), (3,), (2, 2)]
 
-OPTS_SINGLE = [{}, {'zero_first': True}, {'zero_first': True, 'mode': 'rev'}, {'color': 'off'}, {'color': 'declared'}, {'color': 'partials_cs'}, {'diag': True},
+OPTS_SINGLE = [{}, {'resetup': 'noderiv_first'}, {'resetup': 'noderiv_first', 'diag': True},
+               {'zero_first': True}, {'zero_first': True, 'mode': 'rev'}, {'color': 'off'}, {'color': 'declared'}, {'color': 'partials_cs'}, {'diag': True},
                {'sbc': 'comp'}, {'sbc': 'var'}, {'units': 'comp'}, {'units': 'var'},
                {'decl': 'shape'}, {'decl': 'compshape'}, {'mode': 'rev'}, {'ivc': True}]
 OPTS_PAIRS = [{'diag': True, 'sbc': 'var'}, {'diag': True, 'units': 'comp'},
@@ -624,6 +625,11 @@ def _run(spec):
         with contextlib.redirect_stdout(buf):
             p, comp, of, wrt, conv = build(spec, ref)
             stage = 'setup'
+            if spec['opt'].get('resetup') == 'noderiv_first':
+                # an earlier setup without derivatives (e.g. a cheap first analysis) must not
+                # influence the partials of the next setup
+                p.setup(derivatives=False)
+                p.run_model()
             p.setup(mode=spec['opt'].get('mode', 'fwd'))
             for ipt, (label, env, vals, jacs) in enumerate(ref['points']):
                 stage = 'set_val'
